@@ -337,8 +337,22 @@ func (c *regexpSimplifyChecker) simplifyCharClass(e syntax.Expr) string {
 	return ""
 }
 
+// hasCapture reports whether e contains a capturing group:
+// repeating such an expression changes the number of groups.
+func (c *regexpSimplifyChecker) hasCapture(e syntax.Expr) bool {
+	if e.Op == syntax.OpCapture || e.Op == syntax.OpNamedCapture {
+		return true
+	}
+	for _, a := range e.Args {
+		if c.hasCapture(a) {
+			return true
+		}
+	}
+	return false
+}
+
 func (c *regexpSimplifyChecker) canMerge(x, y syntax.Expr) bool {
-	if x.Op != y.Op {
+	if x.Op != y.Op || c.hasCapture(x) {
 		return false
 	}
 	switch x.Op {
@@ -350,7 +364,7 @@ func (c *regexpSimplifyChecker) canMerge(x, y syntax.Expr) bool {
 }
 
 func (c *regexpSimplifyChecker) canCombine(x, y syntax.Expr) (threshold int, ok bool) {
-	if x.Op != y.Op {
+	if x.Op != y.Op || c.hasCapture(x) {
 		return 0, false
 	}
 
